@@ -61,6 +61,7 @@ fn main() {
             "compile" => syntax::compile_job(&job),
             "parse" => syntax::parse_job(&job),
             "format" => syntax::format_job(&job),
+            "safety" => syntax::safety_job(&job),
             other => {
                 eprintln!("kv: unknown command {other}");
                 std::process::exit(2);
